@@ -6,8 +6,8 @@ import Stgutg.Proofs.GenTieMilenageLoopB
   Proofs/GenTieMilenageBase.lean prove that the translated functions ARE the hand model `Model/Milenage.lean` that the C15
   theorems are about: for every argument length, output buffers nil or of the documented sizes (whatever they hold), every
   key, and every block cipher that returns 16 octets (`AesLen`). The library record is instantiated by `libOf`.
-  Tied: os_memcmp, milenageF1, F1, milenageF2345, F2345, GenerateOPC, Milenage_auts, Milenage_check. NOT yet tied by a theorem
-  (translated and type-checked on every run, tied differentially by the domain `milenage`): MilenageGenerate.
+  Tied: os_memcmp, milenageF1, F1, milenageF2345, F2345, GenerateOPC, MilenageGenerate, Milenage_check, Milenage_auts — every
+  function of the group (for the last three: output buffers fresh and of the documented sizes, as the hand model has them).
 -/
 namespace Stgutg.Proofs.GenTie.Milenage
 open Stgutg Stgutg.Gen Stgutg.Proofs.GenTie
@@ -571,6 +571,176 @@ theorem Milenage_check_eq (P : Prims) (hE : AesLen P) (opc k sqn rand autn : Byt
             by_cases hz : c2 = 0
             · simp [hz, Except.map, checkRes]
             · simp [hz, Except.map, checkRes]
+
+
+/-! ### MilenageGenerate -/
+
+theorem len8 {α : Type} {l : List α} (h : l.length = 8) : ∃ a0 a1 a2 a3 a4 a5 a6 a7, l = [a0, a1, a2, a3, a4, a5, a6, a7] := by
+  match l, h with
+  | [a0, a1, a2, a3, a4, a5, a6, a7], _ => exact ⟨a0, a1, a2, a3, a4, a5, a6, a7, rfl⟩
+
+theorem ex2 {α : Type} (l : List α) (h : 2 ≤ l.length) : ∃ x0 x1 r, l = x0 :: x1 :: r := by
+  rcases l with _ | ⟨x0, l⟩
+  · simp at h
+  rcases l with _ | ⟨x1, l⟩
+  · simp at h
+  exact ⟨x0, x1, l, rfl⟩
+
+set_option maxHeartbeats 1000000 in
+theorem unroll6 {σ : Type} (body : Int → σ → Res σ) (s : σ) :
+    Go.forLt body (6 : Int) 7 (0 : Int) s =
+      (body 0 s >>= fun s => body 1 s >>= fun s => body 2 s >>= fun s => body 3 s >>= fun s => body 4 s >>= fun s =>
+        body 5 s >>= fun s => .ok s) := by rfl
+
+theorem stepD0 (s0 s1 s2 s3 s4 s5 : UInt8) (rs : Bytes) (k0 k1 k2 k3 k4 k5 f0 f1 m0 m1 m2 m3 m4 m5 m6 m7 : UInt8)
+    (a0 a1 a2 a3 a4 a5 a6 a7 a8 a9 a10 a11 a12 a13 a14 a15 : UInt8) :
+    (Go.idx (s0 :: s1 :: s2 :: s3 :: s4 :: s5 :: rs) (0 : Int) >>= fun x => Go.idx [k0, k1, k2, k3, k4, k5] (0 : Int) >>= fun y =>
+      Go.set [a0, a1, a2, a3, a4, a5, a6, a7, a8, a9, a10, a11, a12, a13, a14, a15] (0 : Int) (x ^^^ y) >>= fun t11 =>
+      Go.copyAt t11 (6 : Int) [f0, f1] >>= fun t13 =>
+      Go.slice [m0, m1, m2, m3, m4, m5, m6, m7] (0 : Int) (8 : Int) >>= fun t14 => Go.copyAt t13 (8 : Int) t14 >>= fun t15 => .ok t15)
+    = .ok [s0 ^^^ k0, a1, a2, a3, a4, a5, f0, f1, m0, m1, m2, m3, m4, m5, m6, m7] := rfl
+
+theorem stepD1 (s0 s1 s2 s3 s4 s5 : UInt8) (rs : Bytes) (k0 k1 k2 k3 k4 k5 f0 f1 m0 m1 m2 m3 m4 m5 m6 m7 : UInt8)
+    (a0 a1 a2 a3 a4 a5 a6 a7 a8 a9 a10 a11 a12 a13 a14 a15 : UInt8) :
+    (Go.idx (s0 :: s1 :: s2 :: s3 :: s4 :: s5 :: rs) (1 : Int) >>= fun x => Go.idx [k0, k1, k2, k3, k4, k5] (1 : Int) >>= fun y =>
+      Go.set [a0, a1, a2, a3, a4, a5, a6, a7, a8, a9, a10, a11, a12, a13, a14, a15] (1 : Int) (x ^^^ y) >>= fun t11 =>
+      Go.copyAt t11 (6 : Int) [f0, f1] >>= fun t13 =>
+      Go.slice [m0, m1, m2, m3, m4, m5, m6, m7] (0 : Int) (8 : Int) >>= fun t14 => Go.copyAt t13 (8 : Int) t14 >>= fun t15 => .ok t15)
+    = .ok [a0, s1 ^^^ k1, a2, a3, a4, a5, f0, f1, m0, m1, m2, m3, m4, m5, m6, m7] := rfl
+
+theorem stepD2 (s0 s1 s2 s3 s4 s5 : UInt8) (rs : Bytes) (k0 k1 k2 k3 k4 k5 f0 f1 m0 m1 m2 m3 m4 m5 m6 m7 : UInt8)
+    (a0 a1 a2 a3 a4 a5 a6 a7 a8 a9 a10 a11 a12 a13 a14 a15 : UInt8) :
+    (Go.idx (s0 :: s1 :: s2 :: s3 :: s4 :: s5 :: rs) (2 : Int) >>= fun x => Go.idx [k0, k1, k2, k3, k4, k5] (2 : Int) >>= fun y =>
+      Go.set [a0, a1, a2, a3, a4, a5, a6, a7, a8, a9, a10, a11, a12, a13, a14, a15] (2 : Int) (x ^^^ y) >>= fun t11 =>
+      Go.copyAt t11 (6 : Int) [f0, f1] >>= fun t13 =>
+      Go.slice [m0, m1, m2, m3, m4, m5, m6, m7] (0 : Int) (8 : Int) >>= fun t14 => Go.copyAt t13 (8 : Int) t14 >>= fun t15 => .ok t15)
+    = .ok [a0, a1, s2 ^^^ k2, a3, a4, a5, f0, f1, m0, m1, m2, m3, m4, m5, m6, m7] := rfl
+
+theorem stepD3 (s0 s1 s2 s3 s4 s5 : UInt8) (rs : Bytes) (k0 k1 k2 k3 k4 k5 f0 f1 m0 m1 m2 m3 m4 m5 m6 m7 : UInt8)
+    (a0 a1 a2 a3 a4 a5 a6 a7 a8 a9 a10 a11 a12 a13 a14 a15 : UInt8) :
+    (Go.idx (s0 :: s1 :: s2 :: s3 :: s4 :: s5 :: rs) (3 : Int) >>= fun x => Go.idx [k0, k1, k2, k3, k4, k5] (3 : Int) >>= fun y =>
+      Go.set [a0, a1, a2, a3, a4, a5, a6, a7, a8, a9, a10, a11, a12, a13, a14, a15] (3 : Int) (x ^^^ y) >>= fun t11 =>
+      Go.copyAt t11 (6 : Int) [f0, f1] >>= fun t13 =>
+      Go.slice [m0, m1, m2, m3, m4, m5, m6, m7] (0 : Int) (8 : Int) >>= fun t14 => Go.copyAt t13 (8 : Int) t14 >>= fun t15 => .ok t15)
+    = .ok [a0, a1, a2, s3 ^^^ k3, a4, a5, f0, f1, m0, m1, m2, m3, m4, m5, m6, m7] := rfl
+
+theorem stepD4 (s0 s1 s2 s3 s4 s5 : UInt8) (rs : Bytes) (k0 k1 k2 k3 k4 k5 f0 f1 m0 m1 m2 m3 m4 m5 m6 m7 : UInt8)
+    (a0 a1 a2 a3 a4 a5 a6 a7 a8 a9 a10 a11 a12 a13 a14 a15 : UInt8) :
+    (Go.idx (s0 :: s1 :: s2 :: s3 :: s4 :: s5 :: rs) (4 : Int) >>= fun x => Go.idx [k0, k1, k2, k3, k4, k5] (4 : Int) >>= fun y =>
+      Go.set [a0, a1, a2, a3, a4, a5, a6, a7, a8, a9, a10, a11, a12, a13, a14, a15] (4 : Int) (x ^^^ y) >>= fun t11 =>
+      Go.copyAt t11 (6 : Int) [f0, f1] >>= fun t13 =>
+      Go.slice [m0, m1, m2, m3, m4, m5, m6, m7] (0 : Int) (8 : Int) >>= fun t14 => Go.copyAt t13 (8 : Int) t14 >>= fun t15 => .ok t15)
+    = .ok [a0, a1, a2, a3, s4 ^^^ k4, a5, f0, f1, m0, m1, m2, m3, m4, m5, m6, m7] := rfl
+
+theorem stepD5 (s0 s1 s2 s3 s4 s5 : UInt8) (rs : Bytes) (k0 k1 k2 k3 k4 k5 f0 f1 m0 m1 m2 m3 m4 m5 m6 m7 : UInt8)
+    (a0 a1 a2 a3 a4 a5 a6 a7 a8 a9 a10 a11 a12 a13 a14 a15 : UInt8) :
+    (Go.idx (s0 :: s1 :: s2 :: s3 :: s4 :: s5 :: rs) (5 : Int) >>= fun x => Go.idx [k0, k1, k2, k3, k4, k5] (5 : Int) >>= fun y =>
+      Go.set [a0, a1, a2, a3, a4, a5, a6, a7, a8, a9, a10, a11, a12, a13, a14, a15] (5 : Int) (x ^^^ y) >>= fun t11 =>
+      Go.copyAt t11 (6 : Int) [f0, f1] >>= fun t13 =>
+      Go.slice [m0, m1, m2, m3, m4, m5, m6, m7] (0 : Int) (8 : Int) >>= fun t14 => Go.copyAt t13 (8 : Int) t14 >>= fun t15 => .ok t15)
+    = .ok [a0, a1, a2, a3, a4, s5 ^^^ k5, f0, f1, m0, m1, m2, m3, m4, m5, m6, m7] := rfl
+
+/-- the AUTN loop of MilenageGenerate: `autn[i] = sqn[i] ^ ak[i]; copy(autn[6:], amf[0:2]); copy(autn[8:], mac_a[0:8])`, six times -/
+theorem loopD (sqn ak amf macA autn : Bytes) (hs : 6 ≤ sqn.length) (hk : ak.length = 6) (ha : 2 ≤ amf.length)
+    (hm : macA.length = 8) (hau : autn.length = 16) :
+    Go.forLt (fun i autn => Go.idx sqn i >>= fun x => Go.idx ak i >>= fun y => Go.set autn i (x ^^^ y) >>= fun t11 =>
+        Go.slice amf (0 : Int) (2 : Int) >>= fun t12 => Go.copyAt t11 (6 : Int) t12 >>= fun t13 =>
+        Go.slice macA (0 : Int) (8 : Int) >>= fun t14 => Go.copyAt t13 (8 : Int) t14 >>= fun t15 => .ok t15)
+        (6 : Int) 7 (0 : Int) autn
+      = .ok (xorBytes (sqn.take 6) ak ++ amf.take 2 ++ macA) := by
+  have hA : (amf.take 2).length = 2 := by rw [List.length_take]; omega
+  simp only [slice_0_2, ha, if_true, ok_bind]
+  generalize amf.take 2 = A at hA ⊢
+  obtain ⟨f0, f1, rfl⟩ := len2 hA
+  obtain ⟨s0, s1, s2, s3, s4, s5, rs, rfl⟩ := ex6 sqn hs
+  obtain ⟨k0, k1, k2, k3, k4, k5, rfl⟩ := len6 hk
+  obtain ⟨m0, m1, m2, m3, m4, m5, m6, m7, rfl⟩ := len8 hm
+  obtain ⟨o0, o1, o2, o3, o4, o5, o6, o7, o8, o9, o10, o11, o12, o13, o14, o15, rfl⟩ := len16 hau
+  rw [unroll6]
+  simp only [stepD0, stepD1, stepD2, stepD3, stepD4, stepD5, ok_bind]
+  rfl
+
+/-- what a successful run of the hand model's `milenageF1` says about its inputs and its outputs -/
+theorem f1_ok_facts (P : Prims) (hE : AesLen P) {opc k rand sqn amf a s : Bytes}
+    (h : Model.Milenage.milenageF1 P opc k rand sqn amf = .ok (a, s)) :
+    6 ≤ sqn.length ∧ 2 ≤ amf.length ∧ a.length = 8 := by
+  unfold Model.Milenage.milenageF1 at h
+  split at h
+  · cases h
+  · rename_i hl
+    have hopc : 16 ≤ opc.length := by omega
+    have hrand : 16 ≤ rand.length := by omega
+    by_cases hv : k.length = 16 ∨ k.length = 24 ∨ k.length = 32
+    · rw [nc_ok hv] at h
+      dsimp only at h
+      split at h
+      · cases h
+      · split at h
+        · cases h
+        · rename_i h6 h2
+          cases h
+          refine ⟨by omega, by omega, ?_⟩
+          have h1 : (P.aes k (xor16 rand opc)).length = 16 := hE _ _ hv (xor16_len hrand hopc)
+          have h3 : (xorBytes (scatter 8 (xor16 (sqn.take 6 ++ amf.take 2 ++ (sqn.take 6 ++ amf.take 2)) opc))
+              (P.aes k (xor16 rand opc))).length = 16 := by
+            rw [xorBytes_length, scatter_length, h1]; rfl
+          have h4 := hE k _ hv h3
+          rw [List.length_take, xorBytes_length, List.length_take]
+          omega
+    · rw [nc_bad hv] at h
+      cases h
+
+
+/-- how the hand model's outcome of `MilenageGenerate` reads on the translated function: (AUTN, IK, CK, AK, RES buffers, *res_len) -/
+def genRes (g : GenOut) : Bytes × Option Bytes × Option Bytes × Option Bytes × Option Bytes × Option UInt64 :=
+  (g.autn, some g.ik, some g.ck, some g.ak, some g.res, some (UInt64.ofNat g.resLen))
+
+set_option maxHeartbeats 2000000 in
+/-- **Tie.** the translated `MilenageGenerate` (AUTN, IK, CK, AK, RES buffers: fresh zeroed buffers of 16, 16, 16, 6, 8 octets;
+    res_len pointing at any value) is the hand model, for all input lengths -/
+theorem MilenageGenerate_eq (P : Prims) (hE : AesLen P) (opc amf k sqn rand : Bytes) (n : UInt64) :
+    Pure.Milenage.MilenageGenerate (libOf P) opc amf k sqn rand (zeros 16) (some (zeros 16)) (some (zeros 16)) (some (zeros 6))
+        (some (zeros 8)) (some n)
+      = (Model.Milenage.MilenageGenerate P opc amf k sqn rand n.toNat).map genRes := by
+  unfold Pure.Milenage.MilenageGenerate Model.Milenage.MilenageGenerate
+  dsimp only
+  simp only [f7, optOut_optBytes, deref_some, ok_bind]
+  by_cases hn : n < 8
+  · have hn' : n.toNat < 8 := by
+      have := UInt64.lt_iff_toNat_lt.mp hn
+      simpa using this
+    simp only [hn, hn', decide_true, if_true]
+    rfl
+  have hn' : ¬ n.toNat < 8 := by
+    intro h
+    apply hn
+    apply UInt64.lt_iff_toNat_lt.mpr
+    simpa using h
+  simp only [hn, hn', decide_false, Bool.false_eq_true, if_false]
+  rw [milenageF1_eq P hE opc k rand sqn amf (some (List.replicate 8 (0 : UInt8))) none
+    (by intro b h; cases h; rfl) (by intro b h; cases h)]
+  cases hf : Model.Milenage.milenageF1 P opc k rand sqn amf with
+  | error e => cases e <;> rfl
+  | ok r =>
+    obtain ⟨a, s⟩ := r
+    obtain ⟨hs6, ha2, hal⟩ := f1_ok_facts P hE hf
+    simp only [f1Res, ok_bind, Option.map, optBytes_some, Bool.false_eq_true, if_false]
+    rw [milenageF2345_eq P hE opc k rand (some (zeros 8)) (some (zeros 16)) (some (zeros 16)) (some (zeros 6)) none
+      (by intro b h; cases h; rfl) (by intro b h; cases h; rfl) (by intro b h; cases h; rfl) (by intro b h; cases h; rfl)
+      (by intro b h; cases h)]
+    simp only [Option.isSome]
+    cases hm : Model.Milenage.milenageF2345 P opc k rand true true true true false with
+    | error e => cases e <;> rfl
+    | ok o =>
+      obtain ⟨_, _, _, va, hak, hakl⟩ := f2345_ok_facts P hE hm
+      obtain ⟨s1, s2, s3, _, _⟩ := f2345_shape hm
+      obtain ⟨vr, hr⟩ := Option.isSome_iff_exists.mp s1
+      obtain ⟨vc, hc⟩ := Option.isSome_iff_exists.mp s2
+      obtain ⟨vi, hi⟩ := Option.isSome_iff_exists.mp s3
+      simp only [ok_bind, Bool.false_eq_true, if_false, hr, hc, hi, hak, optBytes_some, Option.getD_some,
+        Option.isNone, Go.optOut]
+      rw [loopD sqn va amf a (zeros 16) hs6 hakl ha2 hal (by simp [zeros])]
+      rfl
 
 
 /-! ### the hypotheses are satisfiable -/
